@@ -62,6 +62,13 @@ func (r *recorder) reset(plan *faultPlan) {
 	r.mu.Unlock()
 }
 
+// disarm drops the faults that were planned but not reached; what was recorded stays
+func (r *recorder) disarm() {
+	r.mu.Lock()
+	r.plan = nil
+	r.mu.Unlock()
+}
+
 func (r *recorder) begin(op string) (fault string) {
 	r.mu.Lock()
 	defer r.mu.Unlock()
